@@ -339,7 +339,7 @@ fn cli_programs() -> Vec<String> {
         "let this = 1; print(\"~\\n\", this)", "object begin function print(x) -> x end.print(1)", "print(\"~\\n\", if false then 1)",
         "print(\"~ ~ ~\\n\", null == null, 1 != true, true & false)",
     ].into_iter().map(|s| s.to_string()).collect();
-    v.push(big_program(3, 130));
+    for pad in [0usize, 3, 5, 6] { v.push(big_program(pad, 130 + pad)) }
     v
 }
 
